@@ -10,10 +10,26 @@ PROPS = [json.loads(l) for l in (VERIF / "properties.jsonl").read_text().splitli
 
 HIST = "stateful property-based testing (Hypothesis RuleBasedStateMachine over generated worlds) against a from-scratch recount / ledger model; ddmin-shrunk replay"
 # id -> (technique, level text, level note)
+COMP = "property-based testing (Hypothesis @given over generated definitions / operation sequences) against an explicit reference model; Hypothesis-shrunk replay"
+BOTH = COMP + " + " + HIST
+NOTE = "Trusts Hypothesis' generators, HIVE's own loader for input soundness and the harness' oracle code. Generated search never establishes absence. Pooling activities are unreachable and not generated; domain restrictions are listed in each evidence file's assumptions."
+
+
+def _t(what):
+    return "Generated-input search with an explicit oracle: " + what + " A green run means no counterexample in the explored cases (counts, non-triviality and samples are in the evidence file); it is not a proof."
+
+
 CLAIMED = {
-    "C02": (HIST,
-            "Generated-history search: thousands of adversarial instruction/step histories on generated worlds with scarce plugs and stalls; after every step and single-instruction probe every counter is recounted from vehicle activities. Finds leaks that need a specific multi-step interleaving; establishes nothing about histories not generated.",
-            "Trusts Hypothesis' generators, HIVE's own loader for input soundness, and the harness' recount. Pooling activities are unreachable and not generated."),
+    "C02": (HIST, _t("adversarial instruction/step histories on generated worlds with scarce plugs and stalls; after every step and single-instruction probe every plug/queue/stall counter is recounted from vehicle activities."), NOTE),
+    "C03": (HIST, _t("histories with dense request streams, double/re-dispatch and interruption attempts; a per-request ledger automaton advanced from captured events is compared with the state after every step, fares reconciled with balances."), NOTE),
+    "C04": (BOTH, _t("(a) call sequences on generated BEV/ICE definitions and chargers (sub-steps, clamps, wrong plug types) checked per call for range, booking identities, strict decrease and deliverable-energy bound; (b) the same identities per vehicle per step on whole histories."), NOTE),
+    "C05": (HIST, _t("histories with complete time-varying tariffs, mixed fleets, station and base charging; a double-entry ledger built from charge/pickup events is compared with vehicle and station balances and energy counters after every step."), NOTE),
+    "C06": (BOTH, _t("(a) whole journeys through traverse() on routes from route() (generated street graphs, Denver, straight-line) with the speed bound, junction, link-order and progress clauses per step; (b) the movement clauses on whole histories through move()."), NOTE),
+    "C07": (HIST, _t("histories biased to stationary instructions naming remote targets; after every step and single-instruction probe each activity is compared with the vehicle's cell and each route with its position and target."), NOTE),
+    "C08": (BOTH, _t("(a) model-based operation sequences on simulation_state_ops against a dict model, exact index comparison after every operation; (b) the same recount after every step of whole histories."), NOTE),
+    "C10": (HIST, _t("histories over worlds with 2-3 fleets and arbitrary membership of every entity; (a) state invariant recomputed from raw membership sets after every step/probe, (b) every instruction emitted by the built-in Dispatcher / ChargingFleetManager (recording proxy) and drivers must name a granting request/station."), NOTE),
+    "C17": (HIST, _t("histories with near-empty vehicles, re-dispatch, interruption and cancellation; every recorded dispatched vehicle is checked against that vehicle's activity after every step/probe; uniqueness under the built-in dispatcher alone."), NOTE),
+    "C18": (HIST, _t("histories that rush 4-9 vehicles to one-plug stations; each queue->plug grant is compared with the (enqueue time, id) of every vehicle left waiting for the same plug."), NOTE),
 }
 NOT_YET = "check not built yet in this round (planned, see DESIGN.md section 8)"
 
